@@ -83,6 +83,7 @@ type Exec struct {
 	loopInfo map[*ssa.Function]*loopInfo
 	entry    *State
 	entryNames map[string]Value
+	regions    map[string][]regionTerm // known-finding regions by obligation name (without the property prefix)
 	covers   map[string]bool
 	nopanic  bool
 	prop     string
@@ -95,6 +96,7 @@ type Exec struct {
 	steps      int
 	gasMeters  map[int]GasV
 	dynCtxArgs []ssa.Value
+	dynCommits []ssa.Value // zero-argument, zero-result dynamic calls inside a loop/callback: possibly CacheContext commit functions
 	localTypes map[string]types.Type
 	freeBind   map[ssa.Value]Value
 	bindState  *State
